@@ -153,6 +153,25 @@ def run(tier, replay_file=None):
                                              runspec={x: str(fr(v)) if isinstance(v, list) else v for x, v in case["rs"].items()}))
                             ok = False
                             break
+                if ok and n % 3 == 0:
+                    # a scenario's run specs reach the transpiled model through SdSimulation.change_runspecs: the run must be reported
+                    # on the new grid with the new dt
+                    nxt = next((c for c in trajs[n + 1:] + trajs[:n] if c["P"] == case["P"] and c["rs"] != case["rs"]), None)
+                    if nxt is not None:
+                        sim5, _ = X.compile_doc(document(case["P"], case["rs"], spelling, n), workdir)
+                        sds = SdSimulation(model=sim5)
+                        ts2 = times(nxt["rs"])
+                        sds.change_runspecs(ts2[0], ts2[-1], float(fr(nxt["rs"]["dt"])))
+                        df2 = sds.start(output=["frame"], equations=list(ELEMENTS))
+                        idx = [float(t) for t in df2.index]
+                        if len(idx) != len(ts2) or any(abs(a - b) > 1e-9 for a, b in zip(idx, ts2)):
+                            R.violation("the run of the transpiled model does not cover the time grid from start to stop",
+                                        dict(extra, channel="SdSimulation.start after change_runspecs", expected=ts2[:3] + ["...", ts2[-1]], n_expected=len(ts2),
+                                             observed=idx[:3] + ["...", idx[-1] if idx else None], n_observed=len(idx),
+                                             runspec={x: str(fr(v)) if isinstance(v, list) else v for x, v in nxt["rs"].items()}))
+                        else:
+                            compare(R, nxt, lambda el, k, t: float(df2[el].iloc[k]), "SdSimulation.start after change_runspecs", stats, extra)
+                        R.add("runs_after_change_runspecs")
                 if ok and spelling == "decimal":
                     # through bptk with a 'source' scenario manager is covered by C07; here: the same structure in the DSL
                     m, *_ = sd_dsl.build(case["P"], case["rs"], "d%d" % n, spelling=n)
